@@ -99,6 +99,25 @@ def directed_server_histories(rng):
         ops.append(('emit', 'q', None, 'S0', None, None, ns, 3))
         ops.append(('close', 'e0', 'transport close'))
         out.append((cfg, ops))
+    # class-based namespaces (and function handlers) whose handlers RAISE, TypeError included: the legacy
+    # "disconnect handler without reason" retry is triggered by any TypeError, also one raised by the body
+    for variant in range(12):
+        ns = ['/', '/chat'][variant % 2]
+        exn = ['TypeError', 'TypeError', 'ValueError'][variant % 3]
+        arity = [2, None, 1, 2][variant % 4]
+        behav = {1: {'arity': 2, 'actions': [], 'outcome': ('ret', None)},
+                 2: {'arity': arity, 'actions': [], 'outcome': ('raise', exn)},
+                 3: {'arity': None, 'actions': [], 'outcome': ('raise', exn) if variant % 2 else ('ret', (b'bin', 'meta'))}}
+        table = {ns: {'connect': 1, 'disconnect': 2, 'ev': 3}}
+        cfg = {'handlers': {} if variant < 8 else table, 'ns_handlers': table if variant < 8 else {}, 'behav': behav,
+               'namespaces': [ns], 'always_connect': bool(variant % 2), 'serializer': 'default'}
+        ops = [('eio_connect', 'e0', {'REMOTE_ADDR': 'e0'}), ('msg', 'e0', server_hist.eio_decode(server_hist.frame(0, ns))),
+               ('msg', 'e0', server_hist.eio_decode(server_hist.frame(2, ns, 7, ['ev', 'x'])))]
+        ops.append([('msg', 'e0', server_hist.eio_decode(server_hist.frame(1, ns))), ('close', 'e0', 'transport close'),
+                    ('disconnect', 'S0', ns)][variant % 3])
+        ops.append(('rooms', 'S0', ns))
+        ops.append(('close', 'e0', 'transport error'))
+        out.append((cfg, ops))
     return out
 
 
